@@ -953,17 +953,18 @@ class Session:
             ev["outcome"] = "unobservable"
             return ev
         self.probe("undo:of-" + e["op"])
+        up = {"C06"} | self.pp | ({"C38"} if e["op"] in ("static_edit", "empty_edit") else set())
         if e["changed"]:
             self.probe("undo:after-argchange")
         if not same_x(rec.x, src.x, bits=False):
-            self.viol("C06.undo-choices", {"C06"} | self.pp, i, rep, "undo of %s did not restore choices: %s vs original %s" % (e["op"], fmt_x(rec.x), fmt_x(src.x)))
+            self.viol("C06.undo-choices", up, i, rep, "undo of %s did not restore choices: %s vs original %s" % (e["op"], fmt_x(rec.x), fmt_x(src.x)))
         if not obs.close(rec.tr.get_score(), src.tr.get_score()):
-            self.viol("C06.undo-score", {"C06"} | self.pp, i, rep, "undo of %s score %s vs original %s" % (e["op"], np.asarray(rec.tr.get_score()), np.asarray(src.tr.get_score())))
+            self.viol("C06.undo-score", up, i, rep, "undo of %s score %s vs original %s" % (e["op"], np.asarray(rec.tr.get_score()), np.asarray(src.tr.get_score())))
         d = cmp_retvals(rec.tr.get_retval(), src.tr.get_retval())
         if d:
-            self.viol("C06.undo-retval", {"C06"} | self.pp, i, rep, "undo of %s retval differs: %s" % (e["op"], d[:2]))
+            self.viol("C06.undo-retval", up, i, rep, "undo of %s retval differs: %s" % (e["op"], d[:2]))
         if np.isfinite(np.asarray(w)) and np.isfinite(e["w"]) and not obs.close(w, -e["w"]):
-            self.viol("C06.undo-weight", {"C06"} | self.pp, i, rep, "undo weight %s vs -forward weight %s (op %s)" % (np.asarray(w), -e["w"], e["op"]))
+            self.viol("C06.undo-weight", up, i, rep, "undo weight %s vs -forward weight %s (op %s)" % (np.asarray(w), -e["w"], e["op"]))
         rec.edit = {"src": tgt, "bwd": bwd2, "w": np.asarray(w), "old_args": tgt.args, "changed": changed, "op": "undo"}
         rep.slots[st["out"]] = rec
         ev.update(trace_event(rec))
